@@ -4,6 +4,7 @@ rule is itself a failed obligation."""
 from __future__ import annotations
 
 import ast
+import os
 
 from .repo import Repo
 from .structural import register
@@ -28,10 +29,55 @@ def _all_functions(repo):
 FILE_READS = {"open", "read_text", "read_bytes"}
 
 
+def _c13_native_probe(repo_root):
+    import json as _json
+    import subprocess
+    import sys as _sys
+    env = dict(os.environ)
+    env["PYTHONPATH"] = repo_root
+    try:
+        p = subprocess.run([_sys.executable, os.path.join(os.path.dirname(os.path.abspath(__file__)), "probe_c13.py")], capture_output=True, text=True, timeout=120, env=env, cwd=repo_root)
+        line = [l for l in p.stdout.splitlines() if l.startswith("{")]
+        return _json.loads(line[-1]) if line else {"error": (p.stderr or p.stdout)[-300:], "violations": [], "checked": 0}
+    except Exception as e:  # noqa: BLE001
+        return {"error": f"{type(e).__name__}: {e}", "violations": [], "checked": 0}
+
+
+C13_PROGRAM = """
+import os, tempfile
+from pathlib import Path
+from liquid2 import Environment, FileSystemLoader
+from liquid2.exceptions import LiquidError
+NAME = %r
+tmp = os.path.realpath(tempfile.mkdtemp())
+root = Path(tmp) / "root"; (root / "sub").mkdir(parents=True); (Path(tmp) / "root_private").mkdir()
+(root / "index.html").write_text("INSIDE"); (Path(tmp) / "secret.html").write_text("OUTSIDE"); (Path(tmp) / "root_private" / "secret.html").write_text("OUTSIDE")
+VIOLATES = False; OBSERVED = ""
+for make in (lambda: FileSystemLoader(root), lambda: FileSystemLoader(root, ext=".html")):
+    try:
+        t = Environment(loader=make()).get_template(NAME)
+        p = os.path.realpath(str(t.path))
+        if not p.startswith(str(root) + os.sep):
+            VIOLATES = True; OBSERVED = "get_template(%%r) loaded %%s" %% (NAME, p)
+    except LiquidError:
+        pass
+"""
+
+
 @register("C13")
 def c13_sites(repo_root, tier):
     repo = Repo(repo_root)
     obs = []
+    # (0) bounded native probe (labelled bounded): adversarial names against the real loaders in a scratch directory layout
+    pr = _c13_native_probe(repo_root)
+    if pr.get("error"):
+        _ob(obs, "liquid2/bounded.native-loader-probe", False, f"probe could not run: {pr['error']}", status="unknown", backend="bounded-native")
+    else:
+        bad = pr["violations"]
+        _ob(obs, "liquid2/bounded.native-loader-probe", not bad,
+            f"{pr['checked']} (loader, name) pairs: every answer is TemplateNotFoundError or a file inside the root" if not bad
+            else f"{bad[0]['loader']}.get_template({bad[0]['name']!r}) {bad[0]['outcome']}",
+            witness=None if not bad else {"program": "from pyvc import probe_c13\nr = probe_c13.run()\nVIOLATES = bool(r['violations'])\nOBSERVED = str(r['violations'][:3])\n", "failing": bad[:5]}, backend="bounded-native")
     fresh = compute_fresh_funcs(repo)
     # (1) every file read in the package reads a path that came out of resolve_path/_resolve_path
     for m, qual, cls, fn, parent in _all_functions(repo):
@@ -127,6 +173,7 @@ def c13_sites(repo_root, tier):
         _ob(obs, f"liquid2.environment:Environment.{name}/site.name-unchanged", ok, f"passes the requested name unchanged to loader.{callee}")
     return {"obligations": obs, "samples": [{"obligation": o["oid"], "backend": "site", "note": o["note"]} for o in obs[:2]],
             "trusted": ["site analysis: file reads are the calls open()/Path.open()/read_text()/read_bytes() found in the source"],
+            "bounded": ["liquid2/bounded.native-loader-probe: a fixed list of adversarial template names against the real loaders in a scratch directory (pyvc/probe_c13.py); bounded, not counted as proved - it exists to give a concrete failing input when an implementation leaves the lexical pathlib model"],
             "assumptions": ["no symlinks below loader roots; pathlib's lexical semantics (joinpath/with_suffix/parts) as modelled"],
             "functions": [{"target": "liquid2/* file-read sites and loader call sites", "status": "ok"}]}
 
